@@ -4,7 +4,7 @@ From Boltons Require Import Lib.Prelude Lib.C07_Str Spec.C07_Spec Gen.C07_Gen Mo
      Proofs.C07_StrLemmas Proofs.C07_Rds Proofs.C07_Resolve Proofs.C07_Parse Proofs.C07_Navigate
      Proofs.C07_Text Proofs.C07_RfcExamples Gen.C07_Src Proofs.C07_SrcEq Check.C07_Check
      Proofs.C07_Refine Proofs.C07_RoundTrip Proofs.C07_Unrooted Proofs.C07_Case
-     Proofs.C07_RefineUnrooted.
+     Proofs.C07_RefineUnrooted Proofs.C07_CaseAuth.
 Open Scope N_scope.
 Open Scope list_scope.
 
@@ -120,6 +120,13 @@ Theorem C07_navigate_mixed_case : forall b d, wf_base_mc b -> wf_ref d ->
   spec_navigate (to_text b) (to_text d) (to_text (navigate_url b d)) = true.
 Proof. exact navigate_mixed_case. Qed.
 Print Assumptions C07_navigate_mixed_case.
+(* the authority hypothesis of wf_base_mc holds for every plainly rendered
+   authority (safe userinfo, LDH host in any case, port neither 0 nor the default
+   of the scheme as spelled or lower-cased) *)
+Theorem C07_auth_fold_structural : forall b, auth_plain b ->
+  authority_text (lc b) = lower_host (authority_text b).
+Proof. exact auth_fold_structural. Qed.
+Print Assumptions C07_auth_fold_structural.
 Theorem C07_navigate_case_twin : forall b d, navigate_url b d = navigate_url (lc b) d.
 Proof. exact navigate_mixed_case_twin. Qed.
 Print Assumptions C07_navigate_case_twin.
